@@ -199,8 +199,10 @@ Definition step_info_mod (t : topo) (g : N) (op : N) (n v : option string) : top
   | None => (t, RNoObj)
   | Some _ =>
       let x := get_extra (m_extra t) g in
-      let '(l, r) := modify_infos (x_infos x) op n v in
-      (set_extra t (put_extra (m_extra t) g (set_infos x l)), r)
+      match modify_infos (x_infos x) op n v with
+      | (_, RErr e) => (t, RErr e)
+      | (l, r) => (set_extra t (put_extra (m_extra t) g (set_infos x l)), r)
+      end
   end.
 
 Definition step_subtype (t : topo) (g : N) (s : option string) : topo * result :=
@@ -363,7 +365,10 @@ Definition step (t : topo) (c : call) : topo * result :=
       (* the inline hwloc_obj_add_info returns hwloc_modify_infos(..., OP_ADD, ...) unchanged: 1 on success
          (its documentation says 0) *)
   | CInfoMod g op n v => step_info_mod t g op n v
-  | CTInfoMod op n v => let '(l, r) := modify_infos (m_tinfos t) op n v in (set_tinfos t l, r)
+  | CTInfoMod op n v => match modify_infos (m_tinfos t) op n v with
+                        | (_, RErr e) => (t, RErr e)
+                        | (l, r) => (set_tinfos t l, r)
+                        end
   | CSubtype g s => step_subtype t g s
   | CAllow f c n => step_allow t f c n
   | CGroup g => step_group t g
